@@ -243,5 +243,144 @@ Proof.
   - intros _. eexists. reflexivity.
 Qed.
 
+(* ---------- Date.MarshalXML / Date.UnmarshalXML ---------- *)
+Lemma date_case : forall ty d f v fi tmpl inslice,
+  marshal_hook sch ty = Some d -> unmarshal_hook sch ty = Some d ->
+  is_ustruct d = true -> t_name d = "Date" ->
+  struct_fields d = [f] -> f_name f = "Time" -> rk sch (f_type f) = RTime ->
+  wf sch (S n') ty v = true ->
+  given_name fi tmpl <> "" ->
+  exists es,
+    (forall m, (S n' <= m)%nat -> marshal sch m ty v fi tmpl = Ok es)
+    /\ Forall (fun e => xname e = given_name fi tmpl) es
+    /\ (forall m base, (S n' <= m)%nat -> zero_like sch (S n') ty base = true -> absorb sch m ty base es = Ok v)
+    /\ (one_ok sch ty v inslice = true -> exists e, es = [e]).
+Proof.
+  intros ty d f v fi tmpl inslice Hmh Huh Hus Hname Hfs Hfn Hkt Hwf Hne.
+  pose proof (named_def_rk sch ty d (marshal_hook_def sch ty d Hmh) Hus) as Hk.
+  cbn [wf] in Hwf. rewrite Hk in Hwf. destruct v as [| | | | | | |vs|]; try discriminate.
+  apply andb_true_iff in Hwf. destruct Hwf as [Hwf Hex]. rewrite Hfs in Hwf.
+  destruct vs as [|x [|y ys]]; cbn [fields_all] in Hwf; try discriminate;
+    [| apply andb_true_iff in Hwf; destruct Hwf as [_ Hwf]; discriminate].
+  unfold wf_extra in Hex. rewrite Hname in Hex. cbn [String.eqb Ascii.eqb Bool.eqb] in Hex. rewrite Hfs in Hex.
+  cbn [fget_go] in Hex. rewrite Hfn in Hex. cbn [String.eqb Ascii.eqb Bool.eqb] in Hex.
+  destruct x as [| | | |t| | | |]; try discriminate. apply Z.eqb_eq in Hex.
+  assert (Hdiv : (t / nanos * nanos = t)%Z).
+  { pose proof (Z.div_mod t nanos ltac:(unfold nanos; lia)) as Hd. rewrite Hex in Hd. lia. }
+  exists [Elem (given_name fi tmpl) [] [] (ADate (t / nanos))]. split; [|split; [|split]].
+  - intros [|m0] Hm0; [lia|]. cbn [marshal].
+    rewrite (ms_hook sch _ ty d (VStruct [VTime t]) fi tmpl); [| rewrite Hk; reflexivity | cbn [is_empty]; apply andb_false_r | exact Hmh].
+    unfold hook_marshal. rewrite Hname. cbn [String.eqb Ascii.eqb Bool.eqb]. unfold date_marshal, fld. rewrite Hfs.
+    cbn [fget_go]. rewrite Hfn. cbn [String.eqb Ascii.eqb Bool.eqb rbind snd]. rewrite default_start_given by exact Hne. reflexivity.
+  - constructor; [reflexivity | constructor].
+  - intros [|m0] base Hm0 Hz; [lia|]. cbn [zero_like] in Hz. rewrite Hk in Hz.
+    destruct base as [| | | | | | |bs|]; try discriminate. rewrite Hfs in Hz.
+    destruct bs as [|b [|b2 bs2]]; cbn [fields_all] in Hz; try discriminate;
+      [| apply andb_true_iff in Hz; destruct Hz as [_ Hz]; discriminate].
+    cbn [absorb unmarshal].
+    rewrite (us_hook sch _ FUEL ty d); [| rewrite Hk; reflexivity | exact Huh].
+    unfold hook_unmarshal. rewrite Hname. cbn [String.eqb Ascii.eqb Bool.eqb]. unfold date_unmarshal. cbn [xtext].
+    rewrite Hfs. cbn [fset_go]. rewrite Hfn. cbn [String.eqb Ascii.eqb Bool.eqb rbind]. rewrite Hdiv. reflexivity.
+  - intros _. eexists. reflexivity.
+Qed.
+
+(* ---------- ChangesetDiscussion.MarshalXML ---------- *)
+Lemma discussion_case : forall ty d f v fi tmpl inslice,
+  marshal_hook sch ty = Some d -> unmarshal_hook sch ty = None ->
+  is_ustruct d = true -> t_name d = "ChangesetDiscussion" ->
+  (String.eqb (xmlname_tag d) "" || String.eqb (xmlname_tag d) (given_name fi tmpl)) = true ->
+  struct_fields d = [f] -> f_name f = "Comments" -> is_elem f = true -> field_supported f = true ->
+  eff_name sch f = "comment" -> x_parents (f_xml f) = [] ->
+  tyok sch n' (f_type f) "comment" false false = true ->
+  wf sch (S n') ty v = true ->
+  given_name fi tmpl <> "" ->
+  exists es,
+    (forall m, (S n' <= m)%nat -> marshal sch m ty v fi tmpl = Ok es)
+    /\ Forall (fun e => xname e = given_name fi tmpl) es
+    /\ (forall m base, (S n' <= m)%nat -> zero_like sch (S n') ty base = true -> absorb sch m ty base es = Ok v)
+    /\ (one_ok sch ty v inslice = true -> exists e, es = [e]).
+Proof.
+  intros ty d f v fi tmpl inslice Hmh Huh Hus Hname Hxn Hfs Hfn He Hsup Hen Hps Hty Hwf Hne.
+  pose proof (named_def_rk sch ty d (marshal_hook_def sch ty d Hmh) Hus) as Hk.
+  destruct (elem_not_attr f He) as [Hna Hsk].
+  cbn [wf] in Hwf. rewrite Hk in Hwf. destruct v as [| | | | | | |vs|]; try discriminate.
+  apply andb_true_iff in Hwf. destruct Hwf as [Hwf Hex]. rewrite Hfs in Hwf.
+  destruct vs as [|c [|y ys]]; cbn [fields_all] in Hwf; try discriminate;
+    [| apply andb_true_iff in Hwf; destruct Hwf as [_ Hwf]; discriminate].
+  rewrite Hsk, andb_true_r in Hwf.
+  unfold wf_extra in Hex. rewrite Hname in Hex. cbn [String.eqb Ascii.eqb Bool.eqb] in Hex. rewrite Hfs in Hex.
+  cbn [fget_go] in Hex. rewrite Hfn in Hex. cbn [String.eqb Ascii.eqb Bool.eqb] in Hex.
+  destruct c as [| | | | | |l| |]; try discriminate. destruct l as [|x l]; [discriminate|].
+  destruct (IH (f_type f) (VList (x :: l)) None (Some "comment") false Hwf Hty ltac:(discriminate))
+    as [kids [Hm [Hnames [Habs _]]]]. cbn [given_name] in *.
+  exists [Elem (given_name fi tmpl) [] kids no_text]. split; [|split; [|split]].
+  - intros [|m0] Hm0; [lia|]. cbn [marshal].
+    rewrite (ms_hook sch _ ty d (VStruct [VList (x :: l)]) fi tmpl); [| rewrite Hk; reflexivity | cbn [is_empty]; apply andb_false_r | exact Hmh].
+    unfold hook_marshal. rewrite Hname. cbn [String.eqb Ascii.eqb Bool.eqb]. unfold discussion_marshal, fld. rewrite Hfs.
+    cbn [fget_go]. rewrite Hfn. cbn [String.eqb Ascii.eqb Bool.eqb rbind snd fst].
+    rewrite (Hm m0 ltac:(lia)). cbn [rbind]. rewrite default_start_given by exact Hne. reflexivity.
+  - constructor; [reflexivity | constructor].
+  - intros [|m0] base Hm0 Hz; [lia|]. cbn [zero_like] in Hz. rewrite Hk in Hz.
+    destruct base as [| | | | | | |bs|]; try discriminate. rewrite Hfs in Hz.
+    destruct bs as [|b [|b2 bs2]]; cbn [fields_all] in Hz; try discriminate;
+      [| apply andb_true_iff in Hz; destruct Hz as [_ Hz]; discriminate].
+    rewrite Hsk, andb_true_r in Hz.
+    cbn [absorb unmarshal]. rewrite (us_struct _ _ _ _ _ _ _ Hk Huh).
+    rewrite (unmarshal_struct_fieldwise sch (unmarshal sch FUEL m0) d [b] _ [b] [VList (x :: l)]); [reflexivity | | | | | |].
+    + rewrite Hfs. cbn [all_supported forallb]. rewrite Hsup. reflexivity.
+    + cbn [xname]. exact Hxn.
+    + rewrite Hfs. cbn [parents_ok forallb]. rewrite Hps, orb_true_r. reflexivity.
+    + rewrite Hfs. unfold elem_keys. cbn [filter]. rewrite He. reflexivity.
+    + rewrite Hfs. cbn [xattrs]. constructor; [reflexivity | constructor].
+    + rewrite Hfs. cbn [xkids]. constructor; [|constructor].
+      rewrite (absorb_kids_plain sch m0 f kids b Hps He); [apply Habs; [lia | exact Hz]|].
+      rewrite Hen. exact Hnames.
+  - intros _. eexists. reflexivity.
+Qed.
+
 End Step.
+
+(* ---------- the induction ---------- *)
+Theorem RT_all : forall n, (n <= FUEL)%nat -> RT sch n.
+Proof.
+  induction n as [|n' IHn]; intros Hn.
+  - intros ty v fi tmpl inslice Hwf. discriminate Hwf.
+  - assert (IH : RT sch n') by (apply IHn; lia).
+    intros ty v fi tmpl inslice Hwf Hty Hne. cbn [tyok] in Hty.
+    destruct (marshal_hook sch ty) as [d|] eqn:Hmh; destruct (unmarshal_hook sch ty) as [d2|] eqn:Huh.
+    + (* Date *)
+      assert (d2 = d) as ->.
+      { pose proof (marshal_hook_def sch _ _ Hmh) as H1. pose proof (unmarshal_hook_def sch _ _ Huh) as H2. congruence. }
+      apply andb_true_iff in Hty. destruct Hty as [Hty Hsf]. apply andb_true_iff in Hty. destruct Hty as [Hus Hname].
+      apply String.eqb_eq in Hname. unfold single_field in Hsf.
+      destruct (struct_fields d) as [|f [|f2 fs2]] eqn:Hfs; try discriminate.
+      apply andb_true_iff in Hsf. destruct Hsf as [Hfn Hkt]. apply String.eqb_eq in Hfn.
+      destruct (rk sch (f_type f)) eqn:Hk; try discriminate.
+      eapply date_case; eassumption.
+    + apply andb_true_iff in Hty. destruct Hty as [Hus Hty].
+      destruct (String.eqb (t_name d) "Bounds") eqn:Hb.
+      * apply String.eqb_eq in Hb. apply andb_true_iff in Hty. destruct Hty as [Hty Hfc].
+        apply andb_true_iff in Hty. destruct Hty as [Hnm Hxt]. apply String.eqb_eq in Hnm, Hxt.
+        eapply bounds_case; eassumption.
+      * destruct (String.eqb (t_name d) "ChangesetDiscussion") eqn:Hd; [|discriminate].
+        apply String.eqb_eq in Hd. apply andb_true_iff in Hty. destruct Hty as [Hxn Hsf].
+        unfold single_field in Hsf. destruct (struct_fields d) as [|f [|f2 fs2]] eqn:Hfs; try discriminate.
+        repeat (apply andb_true_iff in Hsf; destruct Hsf as [Hsf ?]).
+        apply String.eqb_eq in Hsf. destruct (x_parents (f_xml f)) eqn:Hps; [|discriminate].
+        match goal with H : String.eqb (eff_name sch f) "comment" = true |- _ => apply String.eqb_eq in H end.
+        eapply discussion_case; eassumption.
+    + discriminate.
+    + destruct (rk sch ty) eqn:Hk; try discriminate.
+      * eapply scalar_case; try eassumption. rewrite Hk. reflexivity.
+      * eapply scalar_case; try eassumption. rewrite Hk. reflexivity.
+      * eapply scalar_case; try eassumption. rewrite Hk. reflexivity.
+      * eapply scalar_case; try eassumption. rewrite Hk. reflexivity.
+      * eapply scalar_case; try eassumption. rewrite Hk. reflexivity.
+      * eapply ptr_case; eassumption.
+      * apply andb_true_iff in Hty. destruct Hty as [Hin Hty]. apply negb_true_iff in Hin. subst inslice.
+        eapply slice_case; eassumption.
+      * apply andb_true_iff in Hty. destruct Hty as [Hxn Hfc].
+        eapply struct_case; eassumption.
+Qed.
+
 End Main.
